@@ -115,7 +115,7 @@ int main(int argc, char **argv)
     else { /* the shared constant objects are prepared in a child; this process never executes library code */
         pid_t pid = fork(); if (pid == 0) { shared_setup(&AR->sh0); _exit(0); } int st; while (waitpid(pid, &st, 0) < 0 && errno == EINTR) { } memcpy(SH0, &AR->sh0, sizeof *SH0); }
     memcpy(SH, SH0, sizeof *SH);
-    for (int t = 0; t < VP_MAXT; t++) { CTX[t] = malloc(sizeof(tctx)); REF[t] = malloc(sizeof(tctx)); }
+    { tctx *blk = malloc(sizeof(tctx) * VP_MAXT), *rblk = malloc(sizeof(tctx) * VP_MAXT); for (int t = 0; t < VP_MAXT; t++) { CTX[t] = &blk[t]; REF[t] = &rblk[t]; } }   /* adjacent private blocks */
     vp_reset_regions(); vp_register_shared(SH, sizeof *SH); for (int t = 0; t < VP_MAXT; t++) vp_register_private(t, CTX[t], sizeof(tctx));
     t_end = now() + 1e9;
     if (!strcmp(argv[1], "pairs")) {
